@@ -109,25 +109,30 @@ theorem updateO_sync {o : KcpO} (h : Sync o) (now : U32) : Sync (updateO o now).
 /-- number of queue positions of the core that hold buffer `id` -/
 def held (o : KcpO) (id : Nat) : Nat := cnt id o.sq + cnt id o.sb + cnt id o.rb + cnt id o.rq
 
-/-- **The ownership invariant.**  The instrumented queues are the model's queues (`sync`); the event
-log so far is accepted by the sanitizer, every buffer the sanitizer considers owned is held at
-exactly one position of `snd_queue ++ snd_buf ++ rcv_buf ++ rcv_queue` (or was dropped next to a
-panic), no other buffer — in particular no recycled one — is held anywhere, and ids handed out
+/-- **The ownership invariant**, with a frame: `F id` counts the holders of buffer `id` outside this
+core (other cores, FEC decoders, callers that share the pool; `F = 0` for a core on its own).
+The instrumented queues are the model's queues (`sync`); the event log so far is accepted by the
+sanitizer, every buffer the sanitizer considers owned is held at exactly one position — of
+`snd_queue ++ snd_buf ++ rcv_buf ++ rcv_queue` of this core or outside (or was dropped next to a
+panic) — no other buffer, in particular no recycled one, is held anywhere, and ids handed out
 later are fresh (`w`). -/
-structure OwnInv (o : KcpO) : Prop where
+structure OwnInvF (F : Nat → Nat) (o : KcpO) : Prop where
   sync : Sync o
-  w    : W o.gh (held o)
+  w    : W o.gh (fun id => held o id + F id)
+
+/-- the invariant of a core that has the pool for itself -/
+abbrev OwnInv (o : KcpO) : Prop := OwnInvF (fun _ => 0) o
 
 theorem OwnInv.new (conv : U32) : OwnInv (KcpO.new conv) :=
   ⟨Sync.new conv, W.init.congr (fun _ => rfl)⟩
 
 /-- an operation on the scalar fields only -/
-theorem OwnInv.setK {o : KcpO} (h : OwnInv o) {k' : Kcp} (h1 : k'.snd_queue = o.k.snd_queue)
+theorem OwnInvF.setK {F : Nat → Nat} {o : KcpO} (h : OwnInvF F o) {k' : Kcp} (h1 : k'.snd_queue = o.k.snd_queue)
     (h2 : k'.snd_buf = o.k.snd_buf) (h3 : k'.rcv_buf = o.k.rcv_buf) (h4 : k'.rcv_queue = o.k.rcv_queue) :
-    OwnInv { o with k := k' } :=
+    OwnInvF F { o with k := k' } :=
   ⟨h.sync.setK h1 h2 h3 h4, h.w⟩
 
-theorem recvO_inv {o : KcpO} (h : OwnInv o) (n : Nat) : OwnInv (recvO o n).o := by
+theorem recvO_inv {F : Nat → Nat} {o : KcpO} (h : OwnInvF F o) (n : Nat) : OwnInvF F (recvO o n).o := by
   refine ⟨recvO_sync h.sync n, ?_⟩
   unfold recvO
   simp only []
@@ -135,7 +140,7 @@ theorem recvO_inv {o : KcpO} (h : OwnInv o) (n : Nat) : OwnInv (recvO o n).o := 
   · exact h.w
   · split
     · exact h.w
-    · have h1 : W o.gh (fun id => cnt id o.rq + (cnt id o.sq + cnt id o.sb + cnt id o.rb)) :=
+    · have h1 : W o.gh (fun id => cnt id o.rq + (cnt id o.sq + cnt id o.sb + cnt id o.rb + F id)) :=
         h.w.congr (fun id => by unfold held; omega)
       have h2 := popMsgO_W _ _ _ h1
       refine h2.congr (fun id => ?_)
@@ -144,13 +149,13 @@ theorem recvO_inv {o : KcpO} (h : OwnInv o) (n : Nat) : OwnInv (recvO o n).o := 
       simp only []
       omega
 
-theorem sendO_inv {o : KcpO} (h : OwnInv o) (b : Bytes) : OwnInv (sendO o b).o := by
+theorem sendO_inv {F : Nat → Nat} {o : KcpO} (h : OwnInvF F o) (b : Bytes) : OwnInvF F (sendO o b).o := by
   refine ⟨sendO_sync h.sync b, ?_⟩
-  have h0 : W o.gh (fun id => cnt id o.sq + (cnt id o.sb + cnt id o.rb + cnt id o.rq)) :=
+  have h0 : W o.gh (fun id => cnt id o.sq + (cnt id o.sb + cnt id o.rb + cnt id o.rq + F id)) :=
     h.w.congr (fun id => by unfold held; omega)
   have h1 : W (if sendExt o.k b > 0 then o.gh.use (lastBuf o.sq) else o.gh)
       (fun id => cnt id (if sendExt o.k b > 0 then appendLastO o.sq (b.take (sendExt o.k b)) else o.sq) +
-        (cnt id o.sb + cnt id o.rb + cnt id o.rq)) := by
+        (cnt id o.sb + cnt id o.rb + cnt id o.rq + F id)) := by
     split
     · exact h0.use_last.congr (fun id => by rw [cnt_appendLastO])
     · exact h0
@@ -163,17 +168,18 @@ theorem sendO_inv {o : KcpO} (h : OwnInv o) (b : Bytes) : OwnInv (sendO o b).o :
   split; · exact h1.getLost.congr (fun id => by unfold held; simp only []; omega)
   exact (mkSegsO_W _ _ _ _ _ _ h1).congr (fun id => by unfold held; simp only [cnt_append]; omega)
 
-theorem flushO_inv {o : KcpO} (h : OwnInv o) (full : Bool) (now : U32) : OwnInv (flushO o full now).o := by
+theorem flushO_inv {F : Nat → Nat} {o : KcpO} (h : OwnInvF F o) (full : Bool) (now : U32) :
+    OwnInvF F (flushO o full now).o := by
   refine ⟨flushO_sync h.sync full now, ?_⟩
   obtain ⟨l1, l2⟩ := flushO_lens h.sync full now
   have hc : ∀ id, cnt id (reattach (flushAd o.k now).buf (o.sb ++ o.sq.take (flushAd o.k now).count)) +
-      (cnt id (o.sq.drop (flushAd o.k now).count) + cnt id o.rb + cnt id o.rq) = held o id := by
+      (cnt id (o.sq.drop (flushAd o.k now).count) + cnt id o.rb + cnt id o.rq + F id) = held o id + F id := by
     intro id
     rw [cnt_reattach id _ _ l1, cnt_append]
     have := cnt_take_drop id o.sq (flushAd o.k now).count
     unfold held; omega
   have h0 : W o.gh (fun id => cnt id (reattach (flushAd o.k now).buf (o.sb ++ o.sq.take (flushAd o.k now).count)) +
-      (cnt id (o.sq.drop (flushAd o.k now).count) + cnt id o.rb + cnt id o.rq)) := h.w.congr hc
+      (cnt id (o.sq.drop (flushAd o.k now).count) + cnt id o.rb + cnt id o.rq + F id)) := h.w.congr hc
   unfold flushO
   simp only []
   split
@@ -240,15 +246,12 @@ theorem inputLoopO_W (regular : Bool) (fuel : Nat) (data : Bytes) {st : InLoopO}
     · exact inBodyO_W regular data F hs h
     · exact ih _ (inBodyO_sync regular data hs) (inBodyO_W regular data F hs h)
 
-theorem inputO_inv {o : KcpO} (h : OwnInv o) (data : Bytes) (regular ackNoDelay : Bool) (now : U32) :
-    OwnInv (inputO o data regular ackNoDelay now).o := by
-  have hsync := inputO_sync h.sync data regular ackNoDelay now
-  unfold inputO at hsync ⊢
-  simp only [] at hsync ⊢
+theorem inputO_inv {F : Nat → Nat} {o : KcpO} (h : OwnInvF F o) (data : Bytes) (regular ackNoDelay : Bool) (now : U32) :
+    OwnInvF F (inputO o data regular ackNoDelay now).o := by
+  unfold inputO
+  simp only []
   split
   · exact h
-  rename_i c0
-  rw [if_neg c0] at hsync
   have hl : SyncL (inputLoopO regular (data.length / IKCP_OVERHEAD + 1) data
       { m := { k := o.k }, sb := o.sb, rb := o.rb, rq := o.rq, gh := o.gh }) :=
     inputLoopO_sync regular _ data ⟨h.sync.sb, h.sync.rb, h.sync.rq⟩
@@ -256,25 +259,25 @@ theorem inputO_inv {o : KcpO} (h : OwnInv o) (data : Bytes) (regular ackNoDelay 
       { m := { k := o.k }, sb := o.sb, rb := o.rb, rq := o.rq, gh := o.gh }).m.k.snd_queue = er o.sq := by
     rw [inputLoopO_m, inputLoop_snd_queue]; exact h.sync.sq
   have hw := inputLoopO_W regular (data.length / IKCP_OVERHEAD + 1) data
-    (st := { m := { k := o.k }, sb := o.sb, rb := o.rb, rq := o.rq, gh := o.gh }) (fun id => cnt id o.sq)
+    (st := { m := { k := o.k }, sb := o.sb, rb := o.rb, rq := o.rq, gh := o.gh }) (fun id => cnt id o.sq + F id)
     ⟨h.sync.sb, h.sync.rb, h.sync.rq⟩ (h.w.congr (fun id => by unfold held; simp only []; omega))
   generalize inputLoopO regular (data.length / IKCP_OVERHEAD + 1) data
-      { m := { k := o.k }, sb := o.sb, rb := o.rb, rq := o.rq, gh := o.gh } = st at hl hq hw hsync
-  have h1 : OwnInv { k := st.m.k, sq := o.sq, sb := st.sb, rb := st.rb, rq := st.rq, gh := st.gh } :=
+      { m := { k := o.k }, sb := o.sb, rb := o.rb, rq := o.rq, gh := o.gh } = st at hl hq hw
+  have h1 : OwnInvF F { k := st.m.k, sq := o.sq, sb := st.sb, rb := st.rb, rq := st.rq, gh := st.gh } :=
     ⟨⟨hq, hl.sb, hl.rb, hl.rq⟩, hw.congr (fun id => by unfold held; simp only []; omega)⟩
   split; · exact h1
   split; · exact h1
   obtain ⟨a1, a2, a3, a4⟩ := inputK1_queues st.m regular now
   obtain ⟨b1, b2, b3, b4⟩ := cwndOnAck_queues (inputK1 st.m regular now) o.k.snd_una
-  have h2 : OwnInv { k := cwndOnAck (inputK1 st.m regular now) o.k.snd_una, sq := o.sq, sb := st.sb, rb := st.rb,
-                       rq := st.rq, gh := st.gh } :=
+  have h2 : OwnInvF F { k := cwndOnAck (inputK1 st.m regular now) o.k.snd_una, sq := o.sq, sb := st.sb, rb := st.rb,
+                         rq := st.rq, gh := st.gh } :=
     h1.setK (b1.trans a1) (b2.trans a2) (b3.trans a3) (b4.trans a4)
   split; · exact flushO_inv h2 _ _
   split; · exact flushO_inv h2 _ _
   split; · exact flushO_inv h2 _ _
   exact h2
 
-theorem updateO_inv {o : KcpO} (h : OwnInv o) (now : U32) : OwnInv (updateO o now).o := by
+theorem updateO_inv {F : Nat → Nat} {o : KcpO} (h : OwnInvF F o) (now : U32) : OwnInvF F (updateO o now).o := by
   obtain ⟨u, t, hk⟩ := updK2_shape o.k now
   unfold updateO
   split
